@@ -258,6 +258,8 @@ def do_check(unit, check, cfile, sdir, known, verbose=False):
                     return 'goto-instrument failed: ' + ' | '.join(tail)[:400]
                 target = gb2
             cmd = ['cbmc', target] + check.get('cbmc_flags', DEFAULT_FLAGS) + check.get('extra_flags', [])
+            if kind == 'cbmc':
+                cmd += ['--drop-unused-functions']
             if kind == 'cbmc' and 'unwind' in check:
                 cmd += ['--unwind', str(check['unwind']), '--unwinding-assertions']
             cmd += cbmc_backend_flags(check)
